@@ -280,6 +280,10 @@ def run_panic_inventory(ctx, rid, entries, text, ctx_sensitive=False, kinds=None
                % (s.kind, s.detail.rsplit("::", 2)[-1] if s.kind == "call" else s.detail, ("(" + s.info + ")") if s.info else "", f["display"],
                   " -> ".join(x.split("::", 1)[-1] for x in chain[-5:])),
                ctx.where(f, s.line))
+    if any(s_.auto and "accumulator" in s_.auto for s_ in sites):
+        note_ = "an accumulator of at least 31 bits that grows by at most 255 per step is taken not to overflow: that needs an input of more than 8 million characters / steps, outside what the properties quantify over"
+        if note_ not in ctx.assumptions:
+            ctx.assumptions.append(note_)
     if len(seen) < fn_floor:
         ctx.ob(rid, "reachable-functions-floor", False, "only %d functions reachable from the entry points, floor %d" % (len(seen), fn_floor))
     stale = [k for k in reviewed if not k.startswith("_") and k.split("|")[0] in seen and k not in {s.key for s in sites}]
